@@ -37,7 +37,7 @@ from .batcher import batch_read_requests, batch_write_requests
 from .dist_store import get_or_create_store, LinearBarrier
 from .event import Event
 from .event_handlers import log_event
-from .flatten import flatten, inflate
+from .flatten import _encode, flatten, inflate
 from .io_preparer import prepare_read, prepare_write
 from .io_types import ReadIO, ReadReq, StoragePlugin, WriteIO, WriteReq
 from .knobs import is_batching_disabled
@@ -727,7 +727,11 @@ class Snapshot:
         manifest, _ = get_manifest_for_rank(metadata=self.metadata, rank=rank)
 
         # filter out irrelevant entries from the manifest
-        manifest = {k: v for k, v in manifest.items() if k.split("/")[0] == key}
+        # The first component of a logical path is the encoded stateful key
+        # (see flatten()), e.g. "x%2Fy" for the key "x/y".
+        manifest = {
+            k: v for k, v in manifest.items() if k.split("/")[0] == _encode(key)
+        }
 
         storage = url_to_storage_plugin_in_event_loop(
             url_path=self.path,
